@@ -1054,3 +1054,86 @@ func replacementIdent(info *types.Info, e ast.Expr) (nameE, posE ast.Expr) {
 	}
 	return nameE, posE
 }
+
+// g10DeleteRemoves — "when no derive calls remain the file is removed", whatever the file holds (the complete previous output,
+// or any remnant of an interrupted write, including an empty file): in (*pkg).Delete every return is (a) the result of
+// os.Remove on the derived file's path, (b) `nil` on a path that established os.IsNotExist for the error of looking the file
+// up, or (c) a non-nil error. A `return nil` on any other path leaves a file behind that a from-scratch run would not have.
+func g10DeleteRemoves(r *Repo, rep *Report) {
+	fi := r.lookup("derive.(*pkg).Delete")
+	if fi == nil {
+		rep.fail(Finding{Rule: "G10", Key: "G10|delete|missing", Kind: "undecided", Msg: "(*pkg).Delete not found"})
+		return
+	}
+	info := fi.Pkg.TypesInfo
+	g := newGraph(fi.Decl.Body, func(*ast.CallExpr) bool { return true })
+	isOS := func(e ast.Expr, name string) bool {
+		c, ok := ast.Unparen(e).(*ast.CallExpr)
+		if !ok {
+			return false
+		}
+		fn, ok := callee(info, c).(*types.Func)
+		return ok && fn.Pkg() != nil && fn.Pkg().Path() == "os" && fn.Name() == name
+	}
+	type state struct {
+		b        *cfg.Block
+		notExist bool
+		errNN    bool
+	}
+	seen := map[state]bool{}
+	returns, bad := 0, false
+	var dfs func(s state)
+	dfs = func(s state) {
+		if seen[s] {
+			return
+		}
+		seen[s] = true
+		for _, n := range s.b.Nodes {
+			ret, ok := n.(*ast.ReturnStmt)
+			if !ok || len(ret.Results) != 1 {
+				continue
+			}
+			returns++
+			res := ast.Unparen(ret.Results[0])
+			switch {
+			case isOS(res, "Remove"):
+			case s.notExist:
+			default:
+				if id, ok := res.(*ast.Ident); ok && id.Name == "nil" {
+					bad = true
+					rep.fail(Finding{Rule: "G10", Key: "G10|delete|kept", Where: []string{r.pos(ret.Pos())},
+						Msg: "(*pkg).Delete can return nil without having removed the derived file although the file exists (return at " + r.pos(ret.Pos()) + " is not behind os.IsNotExist): a derived.gen.go that a from-scratch run would not leave behind — for example the remnant of an interrupted write after the last derive call was removed — stays in the package"})
+				}
+				// anything else is an error value (fmt.Errorf, err): the run fails loudly
+			}
+		}
+		if len(s.b.Succs) == 2 {
+			var cond ast.Expr
+			if ifs, ok := s.b.Succs[0].Stmt.(*ast.IfStmt); ok && s.b.Succs[0].Kind == cfg.KindIfThen {
+				cond = ifs.Cond
+			}
+			for i, succ := range s.b.Succs {
+				ne := s.notExist
+				if cond != nil && i == 0 && isOS(cond, "IsNotExist") {
+					ne = true
+				}
+				dfs(state{succ, ne, s.errNN})
+			}
+			return
+		}
+		for _, succ := range s.b.Succs {
+			dfs(state{succ, s.notExist, s.errNN})
+		}
+	}
+	if e := g.entry(); e != nil {
+		dfs(state{e, false, false})
+	}
+	rep.analysed("delete_returns", returns)
+	if returns < 2 {
+		rep.fail(Finding{Rule: "G10", Key: "G10|delete|floor", Kind: "undecided", Where: []string{r.pos(fi.Decl.Pos())}, Msg: "fewer return statements in (*pkg).Delete than confirmed by hand"})
+		return
+	}
+	if !bad {
+		rep.pass("G10")
+	}
+}
